@@ -286,7 +286,7 @@ def plan(tier, seed, dev="NoDev"):
             inv = INVS_S4 if dev != "NoDev" and (cls == "s4" or kw.get("sn") == "HardS4Scripts") else INVS
             jobs.append((cfg(k=k, s=s, inv=inv, dev=dev, **kw), meta))
 
-    nh, no, nc, nco, ns4, nf = 21, 15, 8, 7, 6, 2
+    nh, no, nc, nco, ns4, nf, npre = 21, 15, 8, 7, 6, 2, 12
     if tier == "quick":
         for c in CONFIGS:                                           # every 2-request history, all configurations
             add("hard", 1, nh * no * nf, nreq=2, full=1, **c)
@@ -295,6 +295,8 @@ def plan(tier, seed, dev="NoDev"):
                 on="CoreOps", **c)                                  # covering 3-request histories
         for c in (CONFIGS[1], CONFIGS[2], CONFIGS[4], CONFIGS[7]):
             add("s4", 1, ns4 * no * nf * nf, nreq=3, full=1, s1="S4Scripts", **c)
+        for c in (CONFIGS[0], CONFIGS[3], CONFIGS[5], CONFIGS[6]):  # unsolicited bytes behind a prefix (CRLF, SP, ...)
+            add("pre", 1, npre * no * nf, nreq=2, full=1, s1="PreScripts", **c)
     else:
         cover = [CONFIGS[0], CONFIGS[3], CONFIGS[5], CONFIGS[6]]      # pairwise cover of maxsize x retries x seg
         for c in CONFIGS:
@@ -306,6 +308,8 @@ def plan(tier, seed, dev="NoDev"):
                     on="CoreOps", **c)
             add("s4", 1, ns4 * no * nf * nf, nreq=3, full=1, s1="S4Scripts", **c)
             add("s4", 2, ns4 * no * nc * nco * nf, nreq=3, full=2, s1="S4Scripts", sn="CoreScripts", on="CoreOps", **c)
+            add("pre", 1, npre * no * nf, nreq=2, full=1, s1="PreScripts", **c)
+            add("pre", 2, npre * no * nc * nco * nf, nreq=3, full=2, s1="PreScripts", sn="CoreScripts", on="CoreOps", **c)
     return jobs
 
 
@@ -328,6 +332,7 @@ def stage1_jobs(tier):
         ("coverage", cfg(nreq=2, full=1, s1="HardS4Scripts", o1="AllOps", emit="FALSE", maxsize=2), 1, True),
         ("dev:NoProbe", cfg(dev="DevNoProbe", **small), 1, False),
         ("dev:ProbeEofOnly", cfg(dev="DevProbeEofOnly", **small), 1, False),
+        ("dev:ProbeSkipsLeadingCrlf", cfg(dev="DevProbeSkipsCrlf", s1="PreScripts", **small), 1, False),
         ("dev:RawNotReady", cfg(dev="DevRawNotReady", nreq=2, full=1, emit="FALSE"), 1, False),
         ("dev:NoCloseOnUnclean", cfg(dev="DevNoCloseOnUnclean", **s4), 1, False),
         ("dev:NoDiscardOnError", cfg(dev="DevNoDiscardOnError", **s4), 1, False),
@@ -339,7 +344,8 @@ def stage1_jobs(tier):
 
 
 EXPECT_S1 = {"dev:NoProbe": {"OnlyOwnBytes", "UncleanNeverReused"},
-             "dev:ProbeEofOnly": {"OnlyOwnBytes", "UncleanNeverReused"}, "dev:RawNotReady": {"OnlyUrllib3Errors"},
+             "dev:ProbeEofOnly": {"OnlyOwnBytes", "UncleanNeverReused"},
+             "dev:ProbeSkipsLeadingCrlf": {"OnlyOwnBytes", "UncleanNeverReused"}, "dev:RawNotReady": {"OnlyUrllib3Errors"},
              "dev:NoCloseOnUnclean": {"OnlyOwnBytes", "UncleanNeverReused"},
              "dev:NoDiscardOnError": {"OnlyOwnBytes", "UncleanNeverReused"},
              "dev:ReleaseKeepsUnread": {"OnlyOwnBytes", "UncleanNeverReused"},
@@ -431,7 +437,7 @@ def run(rep):
             raise tlc.MachineryError(f"emission incomplete for {name}: {g['n']} histories replayed, {g['expect']} expected")
         if g["n"] == 0:
             raise tlc.MachineryError(f"no history emitted for {name}")
-    rep.extra["histories_by_class"] = {c: sum(g["n"] for g in groups.values() if g["cls"] == c) for c in ("hard", "s4", "sim")}
+    rep.extra["histories_by_class"] = {c: sum(g["n"] for g in groups.values() if g["cls"] == c) for c in ("hard", "s4", "pre", "sim")}
     rep.exhaustive = True
 
 
